@@ -200,8 +200,9 @@ static int cmd_check(const std::string& self, const std::string& prop, Tier tier
     fflush(stdout);
     Shared* sh = (Shared*)mmap(nullptr, sizeof(Shared), PROT_READ | PROT_WRITE, MAP_SHARED | MAP_ANONYMOUS, -1, 0);
     memset((void*)sh, 0, sizeof *sh);
-    char tmpdir[128]; snprintf(tmpdir, sizeof tmpdir, "/verif/build/tmp/%d", (int)getpid());
-    mkdir("/verif/build", 0755); mkdir("/verif/build/tmp", 0755); mkdir(tmpdir, 0755);
+    std::string tmpbase = self.substr(0, self.rfind('/')) + "/tmp";   // next to the binary (build directory)
+    char tmpdir[600]; snprintf(tmpdir, sizeof tmpdir, "%s/%d", tmpbase.c_str(), (int)getpid());
+    mkdir(tmpbase.c_str(), 0755); mkdir(tmpdir, 0755);
     struct WInfo { pid_t pid; int w; std::string out; unsigned long long from; int gen; };
     std::vector<WInfo> ws;
     auto spawn = [&](int w, unsigned long long from, int gen) {
